@@ -80,4 +80,9 @@ PROPS = {
         "level": "exploration", "quick_s": 30, "thorough_s": 600, "thorough_seeds": 4,
         "rule": "host task with 1..2 boundary events (interrupting / non-interrupting), separate tasks and end events on the normal and on each exception path, optionally a task before the host (events before activation) or two tokens inside the host; plans: 0..4 events (matching, non-matching, repeated) interleaved with the host's answer at quiescent moments, or the answer issued immediately after an event; oracle: token game with boundary semantics; several clauses are open known findings (see known_findings.json); distinct = schedule hash; non-trivial = an event delivered and a context switch",
     },
+    "C13": {
+        "level": "exploration", "quick_s": 30, "thorough_s": 600, "thorough_seeds": 4,
+        "rule": "timer definitions (date, duration, cycle Rn|R / start|now / interval / optional end, n in 0..3) on clock.Mock, on the real clock.Host code under the simulator's fake time, and inside a process with a timer catch event (optionally behind a task); clock histories of 1..6 non-decreasing values drawn from the grid {500ms before, 1ns before, exactly at, 1ns after, far beyond, unchanged} around every due instant and the end bound; cancellation before a drawn step; the run is brought to quiescence after every step; oracle: independent arithmetic over the history (never early, exact count, spacing by construction of the reference, end bound, silent after cancel, channel closed); distinct = schedule hash; non-trivial = more than one clock step",
+        "oracle": "reference arithmetic over the clock history",
+    },
 }
